@@ -265,6 +265,7 @@ def _m_backprop(job, rec, k):
     kw = job.get('compile_kw') or {}
     if isinstance(kw, str):
         return False
+    w = rec.get('what', '').lower()
+    # NumPy / JAX / Torch wordings of "a 0-d value inside concatenate([...], 0)"
     return (kw.get('inplace_vectorfield') is False and rec.get('kind') == 'emitted-function-raises'
-            and ('zero-dimensional arrays cannot be concatenated' in rec.get('what', '')
-                 or 'zero-dimensional' in rec.get('what', '')))
+            and ('zero-dimensional' in w or 'number of dimensions' in w or 'numbers of dimensions' in w))
